@@ -23,7 +23,8 @@ def judgeMmapHist : P Verdict := do
     let mut expectStatus := "ok"
     -- the implementation's dirtiness test is conservative (pointer range computed from the CURRENT entry count:
     -- after an in-place column shrink it re-maps a matrix all of whose rows still lie in the mapping); a re-map
-    -- cancelled at one of its polls leaves everything as it was, which is exactly the model's no-op
+    -- cancelled at one of its polls — or failing at CreateTemp — leaves everything as it was, which is exactly the
+    -- model's no-op
     let cleanBefore := (match s.mapped with | some id => !dirty s id | none => false)
     match op with
     | "mmap" =>
@@ -69,7 +70,9 @@ def judgeMmapHist : P Verdict := do
     let _ := residencyOK
     let pk := contentsOK && offHeapOK && ledgerOK
     -- CORR with the model's ledger and tags
-    let statusOK := st == expectStatus || (op == "mmap-cancel" && cleanBefore && expectStatus == "ok" && st == "ctxerr")
+    let statusOK := st == expectStatus ||
+      ((op == "mmap-cancel" && cleanBefore && expectStatus == "ok" && st == "ctxerr") ||
+       ((op == "mmap-notmpdir" || op == "mmap-rotmpdir") && cleanBefore && expectStatus == "ok" && st == "err"))
     let ck := statusOK && csmEq r s.m && mapped == s.mapped.isSome &&
       nonEmpty == nonEmptyCount s && inMap == inMapCount s &&
       tmpf == s.led.files.length && mapl == s.led.maps.length
@@ -87,5 +90,35 @@ where
   dirtyNow (s : MState Float) : Bool := match s.mapped with
     | some id => dirty s id
     | none => false
+
+/-- Server-level swap-out histories (OpenAPI handlers / gRPC trust-matrix service):
+      srv <oapi|grpc> <nsteps> ( <op> <id> "|" <code> <stored> <maplines> <tmpfiles> )* end <leakedMaps> <tmpfiles>
+    The ledger model at this level is one line: a stored matrix owns at most one mapping (`Mm.mmap` releases the
+    previous one on re-map, `reset`/finalizer release it), so after every call the process holds at most `stored`
+    swap-file mappings and no temporary file, and none once everything is deleted and collected. -/
+def judgeMmapSrv : P Verdict := do
+  let kind ← tok
+  let n ← nat
+  let mut p := true
+  let mut msg := ""
+  for k in [0:n] do
+    let op ← tok
+    let id ← tok
+    expect "|"
+    let code ← tok
+    let stored ← nat
+    let maps ← nat
+    let tmpf ← nat
+    let bad := code == "panic" || code == "timeout"
+    let ok := !bad && maps ≤ stored && tmpf == 0
+    if p && !ok then
+      msg := s!"{kind} step {k} {op} {id}: code {code}; {maps} swap-file mapping(s) for {stored} stored matrix/matrices, {tmpf} temp file(s)"
+    p := p && ok
+  expect "end"
+  let leaked ← nat
+  let tmpEnd ← nat
+  let endOK := leaked == 0 && tmpEnd == 0
+  if p && !endOK then msg := s!"{kind}: after deleting every stored matrix, dropping the server and GC: {leaked} mapping(s) and {tmpEnd} temp file(s) remain"
+  pure { prop := p && endOK, corr := p && endOK, bit := none, msg := msg }
 
 end EtVerif.Driver
